@@ -110,10 +110,13 @@ where
     if bases.is_empty() {
         return;
     }
+    let t0 = std::time::Instant::now();
+    let tr0 = c.transitions.load(std::sync::atomic::Ordering::Relaxed);
     let nparts = (n_threads() * 4).min(bases.len());
     let crashes = crate::isolate::fork_map(c, nparts, std::time::Duration::from_secs(sweep_timeout_s()), |part, cc| {
         let mut local = Local::default();
         let mut i = part;
+        let mut sampled = 0;
         while i < bases.len() {
             let b = &bases[i];
             let pre = snap(&b.screen);
@@ -133,13 +136,36 @@ where
                     outcome: &outcome,
                 };
                 judge(cc, &t, &mut local);
+                if sampled < 2 && (i == 0 || i == bases.len() / 2) {
+                    // write out an actual case of this sweep
+                    sampled += 1;
+                    cc.sample(serde_json::json!({
+                        "kind": "sweep transition",
+                        "geometry": format!("{}x{}", b.columns, b.lines),
+                        "base_script": b.script.iter().map(|o| o.short()).collect::<Vec<_>>(),
+                        "op": op.short(),
+                        "outcome": match &outcome {
+                            Ok((_, sn, _)) => format!("cursor ({},{}) rows {:?}", sn.cursor.x, sn.cursor.y, sn.grid_text().iter().take(4).collect::<Vec<_>>()),
+                            Err(m) => format!("panic: {}", m),
+                        },
+                    }));
+                }
             }
+            sampled = 0;
             i += nparts;
         }
         local.flush(cc);
     });
     for cr in crashes {
         c.crash(format!("sweep worker {} ended abnormally ({}), last partition {:?}", cr.child, cr.how, cr.last_part));
+    }
+    if std::env::var("VERIF_VERBOSE").is_ok() {
+        eprintln!(
+            "[sweep] bases={} transitions={} {:.1}s",
+            bases.len(),
+            c.transitions.load(std::sync::atomic::Ordering::Relaxed) - tr0,
+            t0.elapsed().as_secs_f64()
+        );
     }
 }
 
@@ -193,6 +219,7 @@ where
     OF: Fn(&Screen) -> Vec<Op> + Sync,
     J: Fn(&Collector, &Trans, &mut Local) -> bool + Sync,
 {
+    let t0 = std::time::Instant::now();
     let mut seen: HashSet<u128> = HashSet::new();
     let mut frontier: Vec<Node> = Vec::new();
     for (i, b) in seeds.iter().enumerate() {
@@ -202,19 +229,21 @@ where
     }
     let mut levels = vec![frontier.len()];
     let mut capped = false;
-    for _d in 0..depth {
+    let mut deepest: Option<(usize, Vec<Op>)> = None;
+    for d in 0..depth {
         if frontier.is_empty() {
             break;
         }
         let fr = &frontier;
-        let children: Vec<Vec<(u128, Node)>> = par_map(fr.len(), |i| {
+        // pass 1: execute + judge every transition; keep only the keys of the children
+        let children: Vec<Vec<(u128, u32)>> = par_map(fr.len(), |i| {
             let n = &fr[i];
             let b = &seeds[n.seed];
             let script = path_ops(&b.script, &n.path);
             let pre = snap(&n.screen);
             let mut local = Local::default();
             let mut out = Vec::new();
-            for op in ops_for(&n.screen) {
+            for (oi, op) in ops_for(&n.screen).into_iter().enumerate() {
                 assert!(
                     !matches!(op, Op::Feed(..) | Op::FeedBytes(..)),
                     "parser-path operations are not allowed in the multi-threaded BFS"
@@ -235,42 +264,74 @@ where
                 };
                 let expand = judge(c, &t, &mut local);
                 if expand {
-                    if let Ok((s, _, _)) = outcome {
-                        let k = full_key(&s);
-                        out.push((
-                            k,
-                            Node {
-                                seed: n.seed,
-                                screen: s,
-                                path: Some(Arc::new(PathNode { parent: n.path.clone(), op: op.clone() })),
-                            },
-                        ));
+                    if let Ok((s, _, _)) = &outcome {
+                        out.push((full_key(s), oi as u32));
                     }
                 }
             }
             local.flush(c);
             out
         });
-        let mut next: Vec<Node> = Vec::new();
-        for group in children {
-            for (k, node) in group {
+        // deterministic dedup in (parent, op) order
+        let mut winners: Vec<Vec<u32>> = vec![Vec::new(); fr.len()];
+        let mut n_new = 0usize;
+        'outer: for (i, group) in children.iter().enumerate() {
+            for (k, oi) in group {
                 if seen.len() >= max_states {
                     capped = true;
-                    break;
+                    break 'outer;
                 }
-                if seen.insert(k) {
-                    next.push(node);
+                if seen.insert(*k) {
+                    winners[i].push(*oi);
+                    n_new += 1;
                 }
             }
         }
-        levels.push(next.len());
-        frontier = next;
-        if capped {
+        levels.push(n_new);
+        if let Some((i, w)) = winners.iter().enumerate().rev().find(|(_, w)| !w.is_empty()) {
+            let n = &fr[i];
+            let mut path = path_ops(&seeds[n.seed].script, &n.path);
+            path.push(ops_for(&n.screen)[*w.last().unwrap() as usize].clone());
+            deepest = Some((n.seed, path));
+        }
+        if capped || d + 1 == depth {
+            // the last level is counted (and every transition into it was judged) but not materialised
             break;
         }
+        // pass 2: materialise the new states only
+        let next: Vec<Vec<Node>> = par_map(fr.len(), |i| {
+            let w = &winners[i];
+            if w.is_empty() {
+                return Vec::new();
+            }
+            let n = &fr[i];
+            let ops = ops_for(&n.screen);
+            let mut out = Vec::with_capacity(w.len());
+            for oi in w {
+                let op = &ops[*oi as usize];
+                let mut s = n.screen.clone();
+                if apply(&mut s, op).is_ok() {
+                    out.push(Node { seed: n.seed, screen: s, path: Some(Arc::new(PathNode { parent: n.path.clone(), op: op.clone() })) });
+                }
+            }
+            out
+        });
+        frontier = next.into_iter().flatten().collect();
     }
     if capped {
         c.cap(format!("bfs state cap {} reached at level {}", max_states, levels.len() - 1));
+    }
+    if let Some((seed, path)) = deepest {
+        let b = &seeds[seed];
+        c.sample(serde_json::json!({
+            "kind": "bfs history (last new state of the deepest level)",
+            "geometry": format!("{}x{}", b.columns, b.lines),
+            "history": path.iter().map(|o| o.short()).collect::<Vec<_>>(),
+            "levels": levels,
+        }));
+    }
+    if std::env::var("VERIF_VERBOSE").is_ok() {
+        eprintln!("[bfs] seeds={} levels={:?} states={} {:.1}s", seeds.len(), levels, seen.len(), t0.elapsed().as_secs_f64());
     }
     c.add_states(seen.len() as u64);
     BfsStats { levels, states: seen.len(), capped }
